@@ -6,7 +6,7 @@ import GdVerif.Proto.Minecraft
 
   * strict RFC 8259 grammar, whitespace = space / LF / CR / TAB, trailing characters rejected;
   * recursion limit 128 (entering the 128th nested container is an error);
-  * objects are `BTreeMap`s: keys sorted by their bytes, a repeated key keeps the last value;
+  * objects keep the order of first insertion (`preserve_order`, see `objInsert`), a repeated key keeps the last value;
   * numbers: an integer literal that fits becomes `PosInt(u64)` / `NegInt(i64)`; `-0`, integers out of range
     and anything with a fraction or exponent become `f64` (never interpreted here; only whether the
     conversion overflows to infinity — an error — is mirrored, exactly, from `f64_from_parts`);
@@ -169,12 +169,14 @@ def expectIdent (ident : String) (bs : Bytes) : Option Bytes :=
   let i := asciiBytes ident
   if i.isPrefixOf bs then some (bs.drop i.length) else none
 
-/-- `BTreeMap::insert` on a key-sorted association list -/
+/-- `Map::insert`.  In the harness build serde_json's `Map` is an `IndexMap` (the `bson` crate, linked for the BSON codec entries,
+turns on serde_json's `preserve_order` feature for the whole build — as it does for the CLI binary): members keep the position of
+their FIRST insertion, a repeated key replaces the value in place.  (Without that feature the map is a `BTreeMap`, sorted by key
+bytes; the two agree whenever the members arrive in sorted order, as the SPEC's documents do.) -/
 def objInsert (k : Bytes) (v : Json) : List (Bytes × Json) → List (Bytes × Json)
   | [] => [(k, v)]
   | (k', v') :: r =>
     if k == k' then (k, v) :: r
-    else if bytesLt k k' then (k, v) :: (k', v') :: r
     else (k', v') :: objInsert k v r
 
 mutual
